@@ -74,9 +74,12 @@ def _sig(e, cm):
         if e.get("rows") != e.get("n"):
             return "LDA:argmax:%s" % s, "%s: %s objects submitted, prediction has %s rows" % (cid, e.get("n"), e.get("rows"))
         return "LDA:separable:%s" % s, "%s: well separated classes (centres >= 8 sigma apart) are not classified without error" % cid
+    if k == "Reuse":
+        return "LDA:argmax:%s" % s, ("%s: a second LDAPrediction call into already sized, non-zero output matrices differs from a call with fresh outputs "
+                                     "(scores by %s relative, labels identical: %s, rows %s/%s)" % (cid, ">= 0.002" if e["err"] >= 2000000000 else "%.3g" % (e["err"] * 1e-12), e["same"], e["rows"], e["n"]))
     if k == "Pair":
-        return "LDA:%s:%s" % (e["kind"], s), ("%s: score differences change by %.3g relative under %s (cond %.1f, covariance condition %s), predictions identical: %s"
-                                             % (cid, e["err"] * 1e-12, e["kind"], e.get("cond", 0) / 1000.0, e.get("kf"), e["same"]))
+        return "LDA:%s:%s" % (e["kind"], s), ("%s: score differences change by %s relative under %s%s (cond %.1f, scale %.3g, covariance condition %s), predictions identical: %s"
+                                             % (cid, ">= 0.002" if e["err"] >= 2000000000 else "%.3g" % (e["err"] * 1e-12), e["kind"], " (%s map)" % e["map"] if "map" in e else "", e.get("cond", 0) / 1000.0, e.get("scale", 0) / 1000.0, e.get("kf"), e["same"]))
     if k in ("Auc", "AucEnd"):
         return "LDA:auc:%s" % s, "%s: LDAMulticlassStatistics on perfect predictions: %s (AUC must be 1 for every class)" % (cid, e)
     return "LDA:trace:%s" % k, "unexpected event %s" % e
